@@ -1,5 +1,5 @@
 // C15: tracer (engine S, path enumeration) and driver for tfel::math::geometricDiscretization of /repo.
-//   trace gen <out.v> <seed> : complete decision trees for n = 1..4 (loop unrolled by execution) + Sym-vs-double agreement
+//   trace gen <out.v> <seed> : complete decision trees for n = 1..8 (loop unrolled by execution) + Sym-vs-double agreement
 //   trace run                : reads "xb xe db de n" per line, prints the nodes produced by the real code (double)
 #include "symtfel.hxx"
 #include <vector>
@@ -22,7 +22,7 @@ int main(int argc, char** argv) {
     Rng rng(std::strtoull(argv[3], nullptr, 10));
     Sym xb = var("xb"), xe = var("xe"), db = var("db"), de = var("de");
     std::vector<Sym> ps{xb, xe, db, de};
-    for (size_t n = 1; n <= 4; ++n) {
+    for (size_t n = 1; n <= 8; ++n) {
       auto leaves = tr.def_paths("geo_gen_" + std::to_string(n), ps, [&] { return run<Sym>(xb, xe, db, de, n); });
       std::printf("LEAVES n=%zu %zu\n", n, leaves.size());
       for (int i = 0; i < 150; ++i) {
